@@ -20,7 +20,7 @@ pub fn spec() -> Spec {
         case_cap_s: |t| t.pick(300, 3600),
         rule: "one case per (connected complete 2-dimensional D-set, geometry): every output of DSets(2, <= N) in the generator's numbering, every relabeling of the D-sets of size <= 4, x {spherical, euclidean, hyperbolic, all}. The oracle enumerates, depth-first with monotone curvature pruning, ALL branching vectors with minimal degree 3 and v <= 10 (10 exceeds every admissible value: euclidean cone orders are <= 6, a minimally hyperbolic vector other than the all-minimal one has K >= -1, spherical ones are capped at 7 by the statement), classifies them by exact curvature, minimal hyperbolicity and the orbifold computed from the definitions, and reduces them modulo the brute-force automorphism group of the D-set. Each geometry's output must be on exactly the input D-set, complete, of degree >= 3, consecutively numbered, of the right curvature sign, and hit each expected class exactly once; 'all' = disjoint union. Non-trivial = at least one expected symbol.",
         assumptions: &["DSets supplies the D-sets (validated by C06); each is re-read into the reference model before use", "the list of good spherical orbifolds is the fixed list of the statement, copied into the harness"],
-        bounds: |t| json!({"dsets_max_size": t.pick(14, 18), "all_relabelings_up_to_size": 4, "oracle_v_max": 10}),
+        bounds: |t| json!({"dsets_max_size": t.pick(14, 18), "all_relabelings_up_to_size": 4, "polyhedral_sets_max_size": t.pick(48, 120), "oracle_v_max": 10}),
     }
 }
 
@@ -291,6 +291,7 @@ fn run(ctx: &mut Ctx) {
     let tier = ctx.tier;
     // the generator is consumed as a stream (every worker walks it and keeps its own share), so that the
     // thorough bound is not limited by holding several million D-sets per worker
+    polyhedral_family(ctx);
     let mut it = ctx.supply("DSets::new", || Some(DSets::new(2, tier.pick(14, 18))));
     loop {
         let next = match it.as_mut() {
@@ -324,6 +325,22 @@ fn run(ctx: &mut Ctx) {
                 }
             }
         }
+    }
+}
+
+/// flag D-sets of the regular maps on the sphere and their quotients (coset D-sets of the finite Coxeter groups
+/// [3,3], [4,3], [5,3], [2,12], [7,2], built by the reference Todd-Coxeter): the only D-sets on which curvatures
+/// above 2 (trivial symmetry group: the plain sphere) occur; the smallest has 24 chambers, far beyond the generator sweep
+fn polyhedral_family(ctx: &mut Ctx) {
+    let cap = ctx.tier.pick(48, 120);
+    for (name, c) in coxeter_symbols(cap) {
+        if c.ops.len() != 3 || c.n < 6 || !ctx.take() {
+            continue;
+        }
+        ctx.add("polyhedral_sets", 1);
+        ctx.max("largest_set", c.n as i64);
+        let _ = name;
+        check_dset(ctx, "polyhedral", &c.ops);
     }
 }
 
